@@ -86,6 +86,7 @@ theorem verdict_shape (v : V) (e : View) (b : Bool) (n : Note)
   | isFalse => simp only [verdict] at h; shape_tac h
   | converted => simp only [verdict] at h; shape_tac h
   | valueIn o => simp only [verdict] at h; shape_tac h
+  | valueInText c => simp only [verdict] at h; shape_tac h
   | shorterThan m => simp only [verdict] at h; shape_tac h
   | longerThan m => simp only [verdict] at h; shape_tac h
   | lengthBetween a c => simp only [verdict] at h; shape_tac h
